@@ -1298,3 +1298,15 @@ pub fn run(ctx: &mut Ctx) {
 pub fn replay(v: &serde_json::Value, obs: &mut Obs) -> Result<CheckResult, String> {
   replay_with::<Case>(v, obs, check)
 }
+
+/// libFuzzer entry: byte 0 selects the target type, the rest is the candidate string (lossy UTF-8).
+pub fn fuzz_decode(data: &[u8]) -> Option<serde_json::Value> {
+  let (sel, rest) = data.split_first()?;
+  let s = String::from_utf8_lossy(rest).into_owned();
+  let case = match sel % 3 {
+    0 => Case::Parse { s, url: false },
+    1 => Case::Parse { s, url: true },
+    _ => Case::Jwk { s },
+  };
+  serde_json::to_value(case).ok()
+}
